@@ -49,11 +49,20 @@ func c10Setup(string) {
 	})
 	c10.eng.RegisterFilter("fail", func(v any) (any, error) { return nil, errors.New("poisoned condition was evaluated") })
 	c10.u = c09Universe()
-	for _, v := range c10.u {
-		if v.Small {
-			c10.u2 = append(c10.u2, v)
+	c10.u2 = c10CaseUniverse(c10.u)
+}
+
+// c10CaseUniverse: the reduced universe plus the same numbers in other numeric kinds
+// (case must select by ==, which compares numbers of every width by value).
+func c10CaseUniverse(u []univ.Val) []univ.Val {
+	var out []univ.Val
+	extra := map[string]bool{"f1": true, "int64_3": true, "uint8_1": true, "float64_3": true, "float32_1": true, "drop_1": true, "drop_a": true}
+	for _, v := range u {
+		if v.Small || extra[v.Name] {
+			out = append(out, v)
 		}
 	}
+	return out
 }
 
 func c10Families(tier string) []explore.Family {
@@ -214,11 +223,7 @@ func c10Families(tier string) []explore.Family {
 	// --- case/when: subject and values from U2; selection by the implementation's own ==
 	S := len(c10.u2)
 	if S == 0 {
-		for _, v := range c10.u {
-			if v.Small {
-				c10.u2 = append(c10.u2, v)
-			}
-		}
+		c10.u2 = c10CaseUniverse(c10.u)
 		S = len(c10.u2)
 	}
 	// shapes: k when-clauses, clause j lists 1 or 2 values
@@ -249,6 +254,18 @@ func c10Families(tier string) []explore.Family {
 		if nvals > 4 {
 			continue
 		}
+		// the universe extended with other numeric kinds is used for shapes with <=2 values;
+		// larger shapes use the reduced universe only (the cost is |U|^(values+1))
+		uu := c10.u2
+		if nvals > 2 {
+			uu = nil
+			for _, v := range c10.u2 {
+				if v.Small {
+					uu = append(uu, v)
+				}
+			}
+		}
+		S := len(uu)
 		cnt := int64(S * 2 * 2)
 		for j := 0; j < nvals; j++ {
 			cnt *= int64(S)
@@ -256,7 +273,7 @@ func c10Families(tier string) []explore.Family {
 		fams = append(fams, explore.Family{Name: fmt.Sprintf("case-shape%d", si), Count: cnt, Run: func(i int64, r *explore.Rec) {
 			rx := radix{i}
 			hasElse, poison := rx.next(2) == 1, rx.next(2) == 1
-			subj := c10.u2[rx.next(S)]
+			subj := uu[rx.next(S)]
 			bind := map[string]any{"s": subj.Build()}
 			var sb strings.Builder
 			sb.WriteString("{% case s | probe: 0 %}")
@@ -271,7 +288,7 @@ func c10Families(tier string) []explore.Family {
 			for j, sz := range sh.sizes {
 				var names []string
 				for q := 0; q < sz; q++ {
-					v := c10.u2[rx.next(S)]
+					v := uu[rx.next(S)]
 					k++
 					name := "v" + strconv.Itoa(k)
 					// the implementation's own ==
